@@ -219,6 +219,25 @@ def end_to_end_shape(out, seed, entry, place):
         ("local_fn_empty", app, APP, "util.helper()", 5, "same", "use", "", "empty", False),
         ("module_qualifier", app, APP, "dep.f()", 0, dep_locality, "use", good, "lower", False),
     ]
+    # a second project of the same session (its files are opened too) that depends on a package of the SAME name, with its own
+    # copy below its own build/packages: that copy is a downloaded package like the first one
+    beta_files = {}
+    if place == "packages":
+        broot = os.path.join(base, "beta")
+        bdep = os.path.join(broot, "build", "packages", "dep")
+        os.makedirs(os.path.join(broot, "src"))
+        os.makedirs(os.path.join(bdep, "src"))
+        BETA = "import dep\n\npub fn b() {\n  dep.f()\n}\n"
+        beta, dep2 = os.path.join(broot, "src", "beta.gleam"), os.path.join(bdep, "src", "dep.gleam")
+        beta_files = {os.path.join(broot, "gleam.toml"): 'name = "beta"\nversion = "0.1.0"\n\n[dependencies]\ndep = "1.0.0"\n',
+                      beta: BETA, os.path.join(bdep, "gleam.toml"): 'name = "dep"\nversion = "1.0.0"\n', dep2: DEP}
+        for p, t in beta_files.items():
+            open(p, "w").write(t)
+        rows += [
+            ("dep2_fn_at_use", beta, BETA, "dep.f()", 4, dep_locality, "use", good, "lower", False),
+            ("dep2_fn_at_def", dep2, DEP, "fn f()", 3, dep_locality, "def", good, "lower", False),
+            ("dep2_private_fn_at_use", dep2, DEP, "  g()", 2, dep_locality, "use", good, "lower", False),
+        ]
     sess = lsp.Session(root, stderr_path=os.path.join(base, "stderr.log"))
     n = 0
     try:
@@ -229,6 +248,11 @@ def end_to_end_shape(out, seed, entry, place):
         sess.did_open(dep, DEP)
         sess.did_open(util, UTIL)
         sess.wait_quiet(0.5, 10)
+        if beta_files:
+            sess.did_open(beta, BETA)
+            sess.wait_quiet(0.5, 10)
+            sess.did_open(dep2, DEP)
+            sess.wait_quiet(0.5, 10)
         # the workspace must be loaded, otherwise every refusal below would be vacuous: the dependency's function resolves
         r = sess.request("textDocument/definition", {"textDocument": {"uri": lsp.uri(app)}, "position": position(APP, "dep.f()", 4)})
         res = (r or {}).get("result")
